@@ -78,6 +78,46 @@ FILES = {
 }
 
 
+MEMO_CLASSES = {
+    # classes whose memoised lookup methods (if any) must be cleared by every method that changes what they read
+    'C03': [(BARCODEPARSER, 'BarcodeParser')],
+}
+
+
+def memoised_functions(ctx, rule_id, prop, files, what):
+    """S3: a memoising decorator (functools.lru_cache / cache) keeps the RESULT OBJECT of the first call.
+    (a) on a generator function that object is a generator: the second call with equal arguments gets the exhausted generator back;
+    (b) on a method of a class whose state changes after construction the result must be dropped by every method that changes what the memoised
+        method reads (the cache-invalidation typestate of C16, applied to the classes of MEMO_CLASSES)."""
+    from .C16 import is_memo_decorator, analyse_class
+    nfun, bad = 0, 0
+    for rel in files:
+        m = ctx.ix.module(rel)
+        for fd in [x for x in ast.walk(m.tree) if isinstance(x, (ast.FunctionDef, ast.AsyncFunctionDef))]:
+            nfun += 1
+            if not any(is_memo_decorator(d) for d in fd.decorator_list):
+                continue
+            if any(isinstance(x, (ast.Yield, ast.YieldFrom)) for x in walk_no_nested(fd)):
+                bad += 1
+                ctx.emit(rule_id, False, rel, fd, f'{fd.name} is a generator function under a memoising decorator: the cache holds the generator object of the first call, every later '
+                         f'call with equal arguments receives that same, already exhausted generator and iterates over nothing', key=f'memoised-generator:{fd.name}',
+                         what=f'{what}: the second call of {fd.name} with the same arguments yields nothing')
+    for rel, cls in MEMO_CLASSES.get(prop, []):
+        res = analyse_class(ctx, rel, cls, rule_id)
+        if res is None:
+            continue
+        memo, reads, results = res
+        for mname, wname, fields, ok, problems, wf, n_paths in results:
+            if not ok:
+                bad += 1
+                ctx.emit(rule_id, False, rel, wf, f'{cls}.{wname} writes {fields} read by the memoised {cls}.{mname} and does not clear its cache: ' + '; '.join(problems),
+                         key=f'memo-stale:{mname}:{wname}', what=f'{what}: {cls}.{mname} keeps answering from results computed before {wname} changed {fields}')
+    ctx.need(rule_id, nfun, 3, 'functions inspected for memoising decorators')
+    if not bad:
+        ctx.emit(rule_id, True, files[0], None, f'{nfun} functions: no generator function is memoised; memoised methods of {[c for _, c in MEMO_CLASSES.get(prop, [])]} are cleared by '
+                 f'every writer', key='memoised-functions')
+
+
 def files_of(ctx, prop):
     out = []
     for f in FILES[prop]:
@@ -101,6 +141,11 @@ def register(prop, title):
                               '(`self.yield_overflow = yield_invalid`), the option the caller set never arrives and a different one is used in its place')
     def s2(ctx, prop=prop, title=title):
         cross_wired_options(ctx, f'{prop}-S2', files_of(ctx, prop), title)
+
+    @rule(prop, f'{prop}-S3', 'memoising decorators: no generator function of the implementing files is wrapped in lru_cache / cache (the cached generator object is exhausted after '
+                              'the first call), and a memoised lookup method of a class that changes after construction is cleared by every method that writes what it reads')
+    def s3(ctx, prop=prop, title=title):
+        memoised_functions(ctx, f'{prop}-S3', prop, files_of(ctx, prop), title)
     return s1
 
 
